@@ -38,7 +38,7 @@ def finalize(prop: str, tier: str, seed: int, t0: float, *, violations: List[dic
         if shown < 5:
             path = write_replay(v)
             print(f"VIOLATION property={prop} replay={path}")
-            print(f"  clauses={v['clauses']} engine={v['engine']} machine={v['label']} last_step={v['steps'][-1]}")
+            print(f"  clauses={v['clauses']} engine={v['engine']} machine={v['label']} last_step={v['steps'][-1] if v['steps'] else None}")
         shown += 1
     if shown > 5:
         print(f"  ... {shown - 5} further distinct violating steps not written out")
